@@ -159,7 +159,39 @@ func TestC02(t *testing.T) {
 		prevIdx := -1
 		restartEvery := rapid.IntRange(0, 3).Draw(t, "exportImport") // 0: never; n: before every n-th block
 		discardedEvery := rapid.IntRange(0, 3).Draw(t, "discardedUpdate")
+		regovEvery := rapid.IntRange(0, 3).Draw(t, "sameScheduleAgain")
+		inForceStart, inForceList := params.StartTime, params.Minters // the stored form of the schedule (governance may shorten the list)
 		for i, T := range ts {
+			if regovEvery > 0 && i > 0 && i%regovEvery == 0 {
+				// governance submits the schedule that is in force once more - as it is, or without the periods that
+				// are over (start time = end of the last dropped period): the same remaining schedule, so the emission
+				// must go on unchanged
+				cur := w.App.CfeminterKeeper.GetMinterState(ctx).SequenceId
+				start, list := inForceStart, inForceList
+				what := "schedule_submitted_again"
+				if rapid.Bool().Draw(t, fmt.Sprintf("prune%d", i)) {
+					var kept []*mintertypes.Minter
+					for _, m := range inForceList {
+						if m.SequenceId >= cur {
+							kept = append(kept, m)
+						} else if m.SequenceId == cur-1 && m.EndTime != nil {
+							start = *m.EndTime
+						}
+					}
+					if len(kept) < len(inForceList) && len(kept) > 0 {
+						list, what = kept, "finished_periods_dropped_by_governance"
+					} else {
+						start = inForceStart
+					}
+				}
+				res := RunMsg(w.App, ctx.WithBlockTime(nsTime(prevT)), &mintertypes.MsgUpdateMintersParams{Authority: GovAuthority(), StartTime: start, Minters: list})
+				if res.OK() {
+					classes[what] = true
+					inForceStart, inForceList = start, list
+				} else if what == "schedule_submitted_again" {
+					t.Fatalf("block %d: governance could not submit the schedule in force once more: %v %v", i, res.Err, res.Panic)
+				}
+			}
 			if discardedEvery > 0 && i > 0 && i%discardedEvery == 0 {
 				// an update of the schedule that is executed and thrown away - what x/gov does with a passed
 				// proposal whose later message fails, and what a simulation of a MsgExec does: ten times the
